@@ -85,6 +85,8 @@ def project(lines, names=None):
         elif ev == "h_watchrun":
             out.append({"e": "watchrun", "early": bool(r["early_exit"]), "inv": int(r["in_ver"]), "outv": int(r["out_ver"]),
                         "extra": int(r["extra_builds"])})
+        elif ev == "h_indep":
+            out.append({"e": "indep", "ms": int(r["ms"])})
         elif ev == "h_exit":
             out.append({"e": "exit", "status": int(r["status"]), "launched": sorted(set(launched)),
                         "exited": sorted(set(exited))})
